@@ -156,6 +156,7 @@ class Interp(Folder):
     def __init__(self, module: Module, env: dict, memo_funcs=()):
         super().__init__(module, env)
         self.memo_funcs = set(memo_funcs)
+        self.global_resolver = None  # name -> value (raises KeyError), consulted for names missing from the environment
         self.memo: dict = {}
         self.memo_enabled = True
         self.memo_hits = 0
@@ -226,6 +227,13 @@ class Interp(Folder):
     def ev_Name(self, e, env):
         if e.id in env:
             return env[e.id]
+        if self.global_resolver is not None:
+            try:
+                v = self.global_resolver(e.id)
+            except KeyError:
+                v = None
+            else:
+                return v
         if e.id == "isinstance":
             return "isinstance"
         if e.id in ("next", "iter", "repr", "hash", "reversed", "print"):
@@ -463,6 +471,14 @@ class Interp(Folder):
             return list(zip(*seqs))
         if f is _type_fn:
             return ("type-of", args[0] if args else None)
+        if getattr(f, "__name__", "") == "_itertools_product":
+            import itertools as _it
+
+            return list(_it.product(*[list(a) for a in args]))
+        if getattr(f, "__name__", "") == "_itertools_chain":
+            import itertools as _it
+
+            return list(_it.chain(*[list(a) for a in args]))
         if f is functools.reduce:
             fn, it = args[0], list(args[1])
             acc = args[2] if len(args) > 2 else it.pop(0)
